@@ -131,6 +131,8 @@ def baselines(seed, d, idxs=None):
                 probs.append(("baseline-crash", "input %d crashed in a fresh %s process: %s" % (i, fl, err[-800:]), i))
                 continue
             per[fl] = {(c[2]): c[5] for c in out["calls"]}
+            if any(len(c) > 6 and c[6] == 0 for c in out["calls"]):
+                probs.append(("vm-instances-interfere", "input %d: a VM stepped alternately with a second VM on the same program (debugger-driven, reset half way) ends differently from a VM running alone" % i, i))
         if len(per) == 2 and per["asan"] != per["plain"]:
             probs.append(("builds-disagree", "input %d: sanitised and plain build give different digests %s vs %s" % (i, per["asan"], per["plain"]), i))
         return i, per.get("asan"), probs
@@ -145,7 +147,13 @@ def baselines(seed, d, idxs=None):
 def check_calls(out, base, ins, part, what, seed_tag):
     bad = 0
     for c in out["calls"]:
-        t, k, stage, s, e, dg = c
+        t, k, stage, s, e, dg = c[:6]
+        if len(c) > 6 and c[6] == 0 and bad == 0:
+            f, m = ins[k]
+            part["violations"].append({"signature": "vm-instances-interfere:" + what, "message":
+                                       "%s: on thread %d, input %d: a VM stepped alternately with a second, debugger-driven VM on the same program ends "
+                                       "differently from a VM running alone" % (what, t, k), "case": {"mode": "compile", "main": m, "files": f, "opts": [], "schedule": seed_tag}})
+            bad += 1
         if k in base and base[k].get(stage) != dg:
             if bad == 0:
                 f, m = ins[k]
@@ -159,6 +167,7 @@ def check_calls(out, base, ins, part, what, seed_tag):
 
 def overlaps(calls):
     """number of call pairs on different threads that overlapped in time, per stage pair"""
+    calls = [c[:6] for c in calls]
     ev = sorted(calls, key=lambda c: c[3])
     n = {"compile-compile": 0, "compile-execute": 0, "execute-execute": 0}
     active = []
